@@ -2,6 +2,7 @@
 #include "solver.h"
 #include <cstring>
 #include <cmath>
+#include <cstdio>
 
 namespace ss{
 
@@ -10,6 +11,15 @@ static inline bool is_payload(double d){ uint64_t u; memcpy(&u,&d,8); return u==
 void SimSolver::PreDerive(double t){
   rec(0,0,0,t);
   RunCtx& c=*ctx;
+  // a callback that looks at the object instead of its argument: the clock the object shows is the time it has just announced
+  if(Get_t()!=t){ char b[200]; snprintf(b,sizeof b,"PreDerive was told t=%.17g while Get_t() still shows %.17g",t,Get_t()); c.violation("C10","callback:clock-behind","PreDerive",b); }
+  if(c.pre_hook && !c.in_proxy) c.pre_hook(c.run,this,t);
+  if(c.in_proxy && c.toggle_at>0 && ++c.pre_count==c.toggle_at){
+    // the user's callback switches a term on or off: the evaluation it precedes must already honour the new setting (disabled terms contribute nothing)
+    bool* f[5]={&c.sw.coh,&c.sw.noncoh,&c.sw.other,&c.sw.gs,&c.sw.os}; bool v=!*f[c.toggle_which%5]; *f[c.toggle_which%5]=v;
+    switch(c.toggle_which%5){ case 0: Set_CoherentRhoTerms(v); break; case 1: Set_NonCoherentRhoTerms(v); break; case 2: Set_OtherRhoTerms(v); break; case 3: Set_GammaScalarTerms(v); break; default: Set_OtherScalarTerms(v); }
+    c.toggled=true;
+  }
   if(c.in_proxy && c.cur_input){
     // binding correctness at the moment it matters: what a derived class reads through the in-step views in PreDerive is the state the
     // stepper passed for this evaluation (compared by value: where the views live is the library's business)
